@@ -167,7 +167,7 @@ fn case_typed<S: Spec>(sub: &str, id: u64, steps: u64, r: &mut Report) {
             let reduced = crate::util::REDUCED.load(std::sync::atomic::Ordering::Relaxed);
             let mut images: std::collections::HashMap<(bool, Vec<u8>), Vec<u8>> = std::collections::HashMap::new();
             let zero_img = vec![0u8; S::SEED_LEN];
-            for k in 0..24 {
+            for k in 0..(if reduced { 3 } else { 24 }) {
                 let (mut class, mut s) = gen_seed(&mut p, S::SEED_LEN, wb, false);
                 if !reduced {
                     let o = super::c06::oracle_for(ti, r);
